@@ -45,6 +45,11 @@ def region_exact(a, b, N):
 
 
 def cases(tier, seed):
+    for w in gen.CODE_WORDS:
+        yield {"word": w, "c": [sum(1 for c in w if c in "KR"), sum(1 for c in w if c in "DE"), len(w)]}
+    for N in (14251, 20017) if tier == "quick" else (14251, 20017, 30011, 50021):
+        for a, b in gen.near_threshold_compositions(N)[::7]:
+            yield {"c": [a, b, N]}
     for N in range(1, NMAX[tier] + 1):
         for a in range(N + 1):
             for b in range(N - a + 1):
@@ -73,6 +78,8 @@ def cases(tier, seed):
 def realise(rng, a, b, N):
     pat = [1] * a + [-1] * b + [0] * (N - a - b)
     rng.shuffle(pat)
+    if rng.random() < 0.12:
+        return gen.spell(rng, pat, neut="H")          # every neutral residue a histidine
     return gen.spell(rng, pat)
 
 
@@ -91,7 +98,7 @@ def judge(case, rep, S):
         rep.cnt("on_boundary:|NCPR|=7/20")
     nreal = 3 if (a + 3 * b + N) % 5 == 0 else 1
     for j in range(nreal):
-        seq = realise(rng, a, b, N)
+        seq = case["word"] if case.get("word") else realise(rng, a, b, N)
         if (a + 2 * b + j) % 9 == 0:
             obj = S["SP"](SALT.present(rng, seq))           # typed with blanks / line breaks / lower case
             rep.cnt("whitespace_presentations")
